@@ -98,7 +98,7 @@ def all_labels(c):
     """every label the grouping knows: observed key values, and every category for categoricals"""
     per_key = []
     for col, kind in zip(c["keycols"], c["kinds"]):
-        per_key.append(list(range(4)) if kind in ("cat", "enum") else [0, 1] if kind == "bool" else sorted({r for r in col if r is not None}))
+        per_key.append(list(range(4)) if kind in ("cat", "enum") else sorted({r for r in col if r is not None}))
     return per_key
 
 
@@ -191,15 +191,15 @@ def run_case(GroupBy, c):
         viol.append(dict(sig={**sig, "what": "labels"}, what="the labels listed are not the expected ones", observed=str(got_labels), expected=str(sorted(want_set))))
         return viol
     all_cat = all(k == "cat" for k in c["kinds"])
-    # a boolean key is factorized like a two-category categorical [False, True]: fixed label universe (what
-    # observed_only=False lists) and category order also with sort=False
-    if c["sort"] or (nkeys == 1 and c["kinds"][0] in ("cat", "enum", "bool")):
+    # a boolean key is an ordinary key: its labels are the values present, ascending when sorted, first appearance otherwise
+    if c["sort"] or (nkeys == 1 and c["kinds"][0] in ("cat", "enum")):
         want_order = sorted(got_labels, key=lambda t: order_key(t, c["kinds"], c["catorders"]))
         if got_labels != want_order:
             viol.append(dict(sig={**sig, "what": "order"}, what="labels are not in ascending key order (category order for categoricals)", observed=str(got_labels), expected=str(want_order)))
     else:
         want_order = [t for t in first_seen if t in set(got_labels)]
-        if got_labels != want_order and nkeys == 1:
+        got_observed = [t for t in got_labels if t in set(first_seen)]          # labels no row has (observed_only=False) come after
+        if (got_observed != want_order or got_labels[:len(got_observed)] != got_observed) and nkeys == 1:
             viol.append(dict(sig={**sig, "what": "order-unsorted"}, what="with sort=False labels are not in first-appearance order", observed=str(got_labels), expected=str(want_order)))
     # ---- unobserved labels carry neutral values
     if not observed_only:
@@ -222,7 +222,7 @@ def run_case(GroupBy, c):
 
 
 def case_json(c):
-    return dict(keys=c["keycols"], key_kinds=c["kinds"], cat_orders=c["catorders"], key_names=c["names"], values=[[None if v is None else str(v) for v in col] for col in c["vals"]],
+    return dict(chunked=c.get("chunked"), warmed_with=c.get("warm"), keys=c["keycols"], key_kinds=c["kinds"], cat_orders=c["catorders"], key_names=c["names"], values=[[None if v is None else str(v) for v in col] for col in c["vals"]],
                 shape=c["shape"], op=c["op"], mask=c["mask"], mk=c["mk"], sort=c["sort"], observed_only=c["observed_only"], layout=c["layout"])
 
 
@@ -253,6 +253,7 @@ def replay(payload):
     c0 = payload["case"]
     c = dict(keycols=c0["keys"], kinds=c0["key_kinds"], catorders=c0["cat_orders"], names=c0["key_names"],
              vals=[[None if v is None else Fraction(v) for v in col] for col in c0["values"]], shape=c0["shape"], op=c0["op"],
-             mask=None if c0["mask"] is None else tuple(c0["mask"]), mk=c0["mk"], sort=c0["sort"], observed_only=c0["observed_only"], layout=c0["layout"])
+             mask=None if c0["mask"] is None else tuple(c0["mask"]), mk=c0["mk"], sort=c0["sort"], observed_only=c0["observed_only"], layout=c0["layout"],
+             chunked=c0.get("chunked"), warm=c0.get("warmed_with"))
     v = run_case(GroupBy, c)
     return (not v), ("replay: " + (v[0]["what"] if v else "no violation on this input"))
